@@ -25,13 +25,19 @@ use bytes::Bytes;
 use futures::channel::oneshot;
 use futures::Stream;
 use http::Method;
-use hx_common::{parse_cli, quiet_panics, sched, Cmd, Rng};
+use hx_common::{parse_cli, quiet_panics, Cmd, Rng};
+#[path = "../esched.rs"]
+mod sched;
 use leptos_server::{ArcServerAction, ArcServerMultiAction, ServerAction, ServerActionError, ServerMultiAction};
 use reactive_graph::actions::{
     Action, ActionAbortHandle, ArcAction, ArcMultiAction, ArcSubmission, MultiAction, Submission,
 };
 use reactive_graph::diagnostics::suppress_resource_load;
-use reactive_graph::owner::{provide_context, Owner};
+use reactive_graph::effect::ImmediateEffect;
+use send_wrapper::SendWrapper;
+use std::cell::RefCell;
+use std::rc::Rc;
+use reactive_graph::owner::{provide_context, FromLocal, LocalStorage, Owner};
 use reactive_graph::prelude::*;
 use server_fn::client::Client;
 use server_fn::codec::{Json, PostUrl};
@@ -381,6 +387,8 @@ trait SingleAct {
     fn retain(&self) -> Box<dyn Fn() -> Obs>;
     /// `Dispose::dispose` of an arena handle
     fn dispose(&self);
+    /// an `ImmediateEffect` that tracks `version()` (false) / `value()` (true) and calls `f` on every run
+    fn watch(&self, value: bool, f: Box<dyn Fn() + Send + Sync>) -> ImmediateEffect;
 }
 
 struct Conv<I, O> {
@@ -439,11 +447,28 @@ where
         })
     }
     fn dispose(&self) {}
+    fn watch(&self, value: bool, f: Box<dyn Fn() + Send + Sync>) -> ImmediateEffect {
+        if value {
+            let v = SendWrapper::new(self.w.value());
+            ImmediateEffect::new(move || {
+                v.track();
+                f()
+            })
+        } else {
+            let v = self.w.version();
+            ImmediateEffect::new(move || {
+                v.track();
+                f()
+            })
+        }
+    }
 }
 
 struct ArenaAct<W, I: 'static, O: 'static> {
     w: W,
     c: Conv<I, O>,
+    /// the same action through a conversion (`Action::from(server_action)`) or a copy of the handle
+    alt: Action<I, O>,
 }
 impl<W, I, O> SingleAct for ArenaAct<W, I, O>
 where
@@ -466,12 +491,22 @@ where
         self.w.clear()
     }
     fn read(&self) -> Obs {
-        (
+        let o = (
             self.w.pending().get_untracked(),
             self.w.version().get_untracked(),
             self.w.value().get_untracked().as_ref().map(self.c.out),
             self.w.input().get_untracked().as_ref().map(self.c.inp),
-        )
+        );
+        let a = (
+            self.alt.pending().get_untracked(),
+            self.alt.version().get_untracked(),
+            self.alt.value().get_untracked().as_ref().map(self.c.out),
+            self.alt.input().get_untracked().as_ref().map(self.c.inp),
+        );
+        if o != a {
+            VIEW_MISMATCH.store(true, SeqCst);
+        }
+        o
     }
     fn retain(&self) -> Box<dyn Fn() -> Obs> {
         let (p, ver, val, inp, c) = (self.w.pending(), self.w.version(), self.w.value(), self.w.input(), self.c);
@@ -488,6 +523,21 @@ where
         let a: Action<I, O> = *self.w;
         a.dispose()
     }
+    fn watch(&self, value: bool, f: Box<dyn Fn() + Send + Sync>) -> ImmediateEffect {
+        if value {
+            let v = SendWrapper::new(self.w.value());
+            ImmediateEffect::new(move || {
+                v.track();
+                f()
+            })
+        } else {
+            let v = self.w.version();
+            ImmediateEffect::new(move || {
+                v.track();
+                f()
+            })
+        }
+    }
 }
 
 const PLAIN: Conv<u32, u32> = Conv { mk: |i, _| i, inp: |i| *i, out: |o| *o };
@@ -498,17 +548,35 @@ fn new_single(kind: Kind, v0: Option<u32>, slot: SharedSlot) -> Box<dyn SingleAc
     match kind {
         Kind::Arc | Kind::ArcLocal => Box::new(ArcAct { w: Plain(ArcAction::new_with_value(v0, f)), c: PLAIN }),
         Kind::ArcUnsync => Box::new(ArcAct { w: Plain(ArcAction::new_unsync_with_value(v0, f)), c: PLAIN }),
-        Kind::Arena => Box::new(ArenaAct { w: Plain(Action::new_with_value(v0, f)), c: PLAIN }),
-        Kind::ArenaLocal => Box::new(ArenaAct { w: Plain(Action::new_local_with_value(v0, f)), c: PLAIN }),
-        Kind::ArenaUnsync => Box::new(ArenaAct { w: Plain(Action::new_unsync_with_value(v0, f)), c: PLAIN }),
+        Kind::Arena => {
+            let a = Action::new_with_value(v0, f);
+            Box::new(ArenaAct { w: Plain(a), c: PLAIN, alt: a })
+        },
+        Kind::ArenaLocal => {
+            let a = Action::new_local_with_value(v0, f);
+            Box::new(ArenaAct { w: Plain(a), c: PLAIN, alt: a })
+        },
+        Kind::ArenaUnsync => {
+            let a = Action::new_unsync_with_value(v0, f);
+            Box::new(ArenaAct { w: Plain(a), c: PLAIN, alt: a })
+        },
         Kind::ArenaUnsyncLocal => {
-            Box::new(ArenaAct { w: Plain(Action::new_unsync_local_with_value(v0, f)), c: PLAIN })
+            {
+            let a = Action::new_unsync_local_with_value(v0, f);
+            Box::new(ArenaAct { w: Plain(a), c: PLAIN, alt: a })
+        }
         }
         // the wrappers read their initial (error) value from a `ServerActionError` context
         Kind::ServerArc => Box::new(ArcAct { w: ArcServerAction::<Echo>::new(), c: ECHO }),
-        Kind::ServerArena => Box::new(ArenaAct { w: ServerAction::<Echo>::new(), c: ECHO }),
+        Kind::ServerArena => {
+            let a = ServerAction::<Echo>::new();
+            Box::new(ArenaAct { w: a, c: ECHO, alt: Action::from(a) })
+        }
         Kind::ServerArcXpath => Box::new(ArcAct { w: ArcServerAction::<Echo>::default(), c: ECHO }),
-        Kind::ServerArenaXpath => Box::new(ArenaAct { w: ServerAction::<Echo>::default(), c: ECHO }),
+        Kind::ServerArenaXpath => {
+            let a = ServerAction::<Echo>::default();
+            Box::new(ArenaAct { w: a, c: ECHO, alt: Action::from(a) })
+        }
         _ => unreachable!(),
     }
 }
@@ -529,13 +597,53 @@ trait MultiAct {
     fn dispose(&self);
 }
 
-fn read_arc_sub<I: Clone + 'static, O: Clone + 'static>(s: &ArcSubmission<I, O>, c: Conv<I, O>) -> SubRec {
-    (
+/// set when two views of the same record (or of the same action) disagree
+static VIEW_MISMATCH: AtomicBool = AtomicBool::new(false);
+
+/// the record through every view there is: the `ArcSubmission` itself, `Submission::from` (arena,
+/// `SyncStorage`) and `Submission::from_local` (arena, `LocalStorage`); they must agree
+fn read_arc_sub<I, O>(s: &ArcSubmission<I, O>, c: Conv<I, O>) -> SubRec
+where
+    I: Clone + Send + Sync + 'static,
+    O: Clone + Send + Sync + 'static,
+{
+    let arc = (
         s.input().get_untracked().as_ref().map(c.inp),
         s.value().get_untracked().as_ref().map(c.out),
         s.pending().get_untracked(),
         s.canceled().get_untracked(),
-    )
+    );
+    let sy = Submission::from(s.clone());
+    let sync = (
+        sy.input().get_untracked().as_ref().map(c.inp),
+        sy.value().get_untracked().as_ref().map(c.out),
+        sy.pending().get_untracked(),
+        sy.canceled().get_untracked(),
+    );
+    let lo = Submission::<I, O, LocalStorage>::from_local(s.clone());
+    let local = (
+        lo.input().get_untracked().as_ref().map(c.inp),
+        lo.value().get_untracked().as_ref().map(c.out),
+        lo.pending().get_untracked(),
+        lo.canceled().get_untracked(),
+    );
+    if arc != sync || arc != local {
+        VIEW_MISMATCH.store(true, SeqCst);
+    }
+    arc
+}
+
+/// `cancel` through the view chosen by the record's index
+fn cancel_via<I, O>(sub: &ArcSubmission<I, O>, s: usize)
+where
+    I: Clone + Send + Sync + 'static,
+    O: Clone + Send + Sync + 'static,
+{
+    match s % 3 {
+        0 => sub.cancel(),
+        1 => Submission::from(sub.clone()).cancel(),
+        _ => Submission::<I, O, LocalStorage>::from_local(sub.clone()).cancel(),
+    }
 }
 
 struct ArcMulti<W, I, O> {
@@ -557,7 +665,7 @@ where
     }
     fn cancel(&self, s: usize) {
         if let Some(sub) = self.w.submissions().get_untracked().get(s) {
-            sub.cancel()
+            cancel_via(sub, s)
         }
     }
     fn read(&self) -> MObs {
@@ -572,7 +680,7 @@ where
         let subs = self.w.submissions();
         Box::new(move |s| {
             if let Some(sub) = subs.get_untracked().get(s) {
-                sub.cancel()
+                cancel_via(sub, s)
             }
         })
     }
@@ -598,27 +706,12 @@ where
     }
     fn cancel(&self, s: usize) {
         if let Some(sub) = self.w.submissions().get_untracked().get(s) {
-            // through the arena flavour of the record
-            Submission::from(sub.clone()).cancel()
+            cancel_via(sub, s)
         }
     }
     fn read(&self) -> MObs {
         let subs = self.w.submissions().get_untracked();
-        let c = self.c;
-        (
-            self.w.version().get_untracked(),
-            subs.iter()
-                .map(|s| {
-                    let r = Submission::from(s.clone());
-                    (
-                        r.input().get_untracked().as_ref().map(c.inp),
-                        r.value().get_untracked().as_ref().map(c.out),
-                        r.pending().get_untracked(),
-                        r.canceled().get_untracked(),
-                    )
-                })
-                .collect(),
-        )
+        (self.w.version().get_untracked(), subs.iter().map(|s| read_arc_sub(s, self.c)).collect())
     }
     fn retain(&self) -> Box<dyn Fn() -> MObs> {
         let (subs, ver, c) = (self.w.submissions(), self.w.version(), self.c);
@@ -628,7 +721,7 @@ where
         let subs = self.w.submissions();
         Box::new(move |s| {
             if let Some(sub) = subs.get_untracked().get(s) {
-                sub.cancel()
+                cancel_via(sub, s)
             }
         })
     }
@@ -655,11 +748,15 @@ fn new_multi(kind: Kind, slot: SharedSlot) -> Box<dyn MultiAct> {
 /// resolved history of a single-action case: ops as issued, polls resolved to the task id polled
 #[derive(Clone, Debug)]
 enum H {
-    /// (input, through `dispatch_local`?)
-    Dispatch(u32, bool),
+    /// (input, through `dispatch_local`?, the future is already resolved to this value)
+    Dispatch(u32, bool, Option<u32>),
     Suppress(bool),
     /// the arena handle is disposed (explicitly or by clean-up of its owner)
     Dispose,
+    /// the executor polls a task inline when it is spawned
+    Eager(bool),
+    /// a synchronous observer of `version` (false) / `value` (true) that dispatches `input` again, `budget` times
+    Hook(bool, u32, u32),
     Abort(usize),
     Drop(usize),
     Ready(usize, u32),
@@ -694,122 +791,182 @@ struct Exp {
     tags: BTreeSet<&'static str>,
 }
 
+/// the from-scratch evaluator's state: one record per dispatch, nothing incremental about
+/// pending / version / input (they are recomputed from the records at the end)
+struct Ev {
+    suppress: bool,
+    disposed: bool,
+    eager: bool,
+    /// (budget, input) of the observer of `version` / of `value`
+    hooks: [(u32, u32); 2],
+    recs: Vec<Rec>,
+    value: Option<u32>,
+    last_input: Option<u32>,
+    completion_order: Vec<usize>,
+    locals: (bool, bool),
+    tags: BTreeSet<&'static str>,
+}
+impl Ev {
+    /// a dispatch that takes effect: a new record; under the eager executor its task is polled at once
+    fn spawn(&mut self, pos: usize, i: u32, ready: Option<u32>) {
+        self.recs.push(Rec { handle_used: false, abort_at: None, ready_at: ready.map(|v| (pos, v)), fate: Fate::Running });
+        self.last_input = Some(i);
+        if self.eager {
+            self.tags.insert("eager-spawn");
+            let id = self.recs.len() - 1;
+            self.poll(id);
+        }
+    }
+    /// the observer of `version` (0) / `value` (1) is notified: it dispatches again while it has budget
+    /// (the harness's observer does nothing through a disposed handle)
+    fn notify(&mut self, which: usize, pos: usize) {
+        if self.disposed || self.hooks[which].0 == 0 {
+            return;
+        }
+        self.hooks[which].0 -= 1;
+        let i = self.hooks[which].1;
+        if self.suppress {
+            self.tags.insert("suppressed-dispatch");
+        } else {
+            self.tags.insert(if which == 0 { "reentrant-on-version" } else { "reentrant-on-value" });
+            self.spawn(pos, i, None);
+        }
+    }
+    fn poll(&mut self, id: usize) {
+        let Some(r) = self.recs.get_mut(id) else { return };
+        if r.fate != Fate::Running {
+            return;
+        }
+        match (r.abort_at, r.ready_at) {
+            (Some(a), ready) => {
+                if let Some((rd, _)) = ready {
+                    self.tags.insert(if a < rd { "race-abort-first" } else { "race-ready-first" });
+                }
+                r.fate = Fate::Aborted;
+                self.tags.insert("abort-before-ready");
+            }
+            (None, Some((pos, v))) => {
+                r.fate = Fate::Completed;
+                self.completion_order.push(id);
+                // the completion publishes version, then value: their observers run in between
+                self.notify(0, pos);
+                self.value = Some(v);
+                self.notify(1, pos);
+            }
+            (None, None) => {}
+        }
+    }
+}
+
 /// The property, evaluated on the history alone: a dispatch is aborted when a poll of its task
 /// saw the abort message (whether or not its result was available too), finished when a poll saw
 /// its result and no abort message; pending = some dispatch neither finished nor aborted; version = number finished;
 /// value = result of the most recently finished one (or None after a later `clear`);
 /// input = latest dispatched input while pending, None otherwise. A dispatch made while resource
 /// loading is suppressed, or through a disposed handle, is no dispatch; `clear` through a disposed
-/// handle does nothing; dispatches in flight at disposal go on being accounted for.
+/// handle does nothing; dispatches in flight at disposal go on being accounted for. Under the eager
+/// executor a task gets its first poll inside `dispatch`. A synchronous observer of `version` /
+/// `value` that dispatches again adds a dispatch at the moment of the write it observes.
 fn eval_single(v0: Option<u32>, hist: &[H]) -> Exp {
-    let mut suppress = false;
-    let mut disposed = false;
-    let mut locals = (false, false);
-    let mut recs: Vec<Rec> = vec![];
-    let mut value = v0;
-    let mut last_input = None;
+    let mut e = Ev {
+        suppress: false,
+        disposed: false,
+        eager: false,
+        hooks: [(0, 0); 2],
+        recs: vec![],
+        value: v0,
+        last_input: None,
+        completion_order: vec![],
+        locals: (false, false),
+        tags: BTreeSet::new(),
+    };
     let mut max_overlap = 0;
-    let mut tags = BTreeSet::new();
-    let mut completion_order: Vec<usize> = vec![];
     for (pos, h) in hist.iter().enumerate() {
         match *h {
-            H::Dispatch(i, local) => {
-                if disposed {
-                    tags.insert("dispatch-after-dispose");
-                } else if suppress {
-                    tags.insert("suppressed-dispatch");
+            H::Dispatch(i, local, ready) => {
+                if e.disposed {
+                    e.tags.insert("dispatch-after-dispose");
+                } else if e.suppress {
+                    e.tags.insert("suppressed-dispatch");
                 } else {
-                    recs.push(Rec { handle_used: false, abort_at: None, ready_at: None, fate: Fate::Running });
-                    last_input = Some(i);
                     if local {
-                        locals.1 = true;
-                        tags.insert("dispatch-local");
+                        e.locals.1 = true;
+                        e.tags.insert("dispatch-local");
                     } else {
-                        locals.0 = true;
+                        e.locals.0 = true;
                     }
+                    if ready.is_some() {
+                        e.tags.insert("ready-at-first-poll");
+                    }
+                    e.spawn(pos, i, ready);
                 }
             }
-            H::Suppress(b) => suppress = b,
+            H::Suppress(b) => e.suppress = b,
+            H::Eager(b) => e.eager = b,
+            H::Hook(value, budget, input) => e.hooks[value as usize] = (budget, input),
             H::Dispose => {
-                if !disposed {
-                    tags.insert(if recs.iter().any(|r| r.fate == Fate::Running) { "dispose-in-flight" } else { "dispose-idle" });
+                if !e.disposed {
+                    e.tags.insert(if e.recs.iter().any(|r| r.fate == Fate::Running) { "dispose-in-flight" } else { "dispose-idle" });
                 }
-                disposed = true;
+                e.disposed = true;
             }
             H::Abort(k) => {
-                if let Some(r) = recs.get_mut(k) {
+                if let Some(r) = e.recs.get_mut(k) {
                     if !r.handle_used {
                         r.handle_used = true;
                         if r.fate == Fate::Running {
                             r.abort_at = Some(pos);
                         } else {
-                            tags.insert("abort-after-ready");
+                            e.tags.insert("abort-after-ready");
                         }
                     }
                 }
             }
             H::Drop(k) => {
-                if let Some(r) = recs.get_mut(k) {
+                if let Some(r) = e.recs.get_mut(k) {
                     if !r.handle_used {
                         r.handle_used = true;
-                        tags.insert("drop-handle");
+                        e.tags.insert("drop-handle");
                     }
                 }
             }
             H::Ready(k, v) => {
-                if let Some(r) = recs.get_mut(k) {
+                if let Some(r) = e.recs.get_mut(k) {
                     if r.fate == Fate::Running && r.ready_at.is_none() {
                         r.ready_at = Some((pos, v));
                     }
                 }
             }
-            H::Polled(id) => {
-                if let Some(r) = recs.get_mut(id) {
-                    if r.fate == Fate::Running {
-                        match (r.abort_at, r.ready_at) {
-                            (Some(a), ready) => {
-                                if let Some((rd, _)) = ready {
-                                    tags.insert(if a < rd { "race-abort-first" } else { "race-ready-first" });
-                                }
-                                r.fate = Fate::Aborted;
-                                tags.insert("abort-before-ready");
-                            }
-                            (None, Some((_, v))) => {
-                                r.fate = Fate::Completed;
-                                value = Some(v);
-                                completion_order.push(id);
-                            }
-                            (None, None) => {}
-                        }
-                    }
-                }
-            }
+            H::Polled(id) => e.poll(id),
             H::Clear => {
-                if disposed {
-                    tags.insert("clear-after-dispose");
+                if e.disposed {
+                    e.tags.insert("clear-after-dispose");
                 } else {
-                    value = None;
-                    tags.insert(if recs.iter().any(|r| r.fate == Fate::Running) { "clear-while-pending" } else { "clear" });
+                    e.tags.insert(if e.recs.iter().any(|r| r.fate == Fate::Running) { "clear-while-pending" } else { "clear" });
+                    e.value = None;
+                    e.notify(1, pos);
                 }
             }
         }
-        max_overlap = max_overlap.max(recs.iter().filter(|r| r.fate == Fate::Running).count());
+        max_overlap = max_overlap.max(e.recs.iter().filter(|r| r.fate == Fate::Running).count());
     }
-    if completion_order.windows(2).any(|w| w[0] > w[1]) {
+    let mut tags = e.tags;
+    if e.completion_order.windows(2).any(|w| w[0] > w[1]) {
         tags.insert("out-of-order");
     }
-    if locals == (true, true) {
+    if e.locals == (true, true) {
         tags.insert("mixed-dispatch-local");
     }
-    if disposed && completion_order.iter().any(|_| true) && tags.contains("dispose-in-flight") {
+    if e.disposed && !e.completion_order.is_empty() && tags.contains("dispose-in-flight") {
         tags.insert("completed-after-dispose");
     }
+    let recs = e.recs;
     let pending = recs.iter().any(|r| r.fate == Fate::Running);
     Exp {
         pending,
         version: recs.iter().filter(|r| r.fate == Fate::Completed).count(),
-        value,
-        input: if pending { last_input } else { None },
+        value: e.value,
+        input: if pending { e.last_input } else { None },
         untouched: recs
             .iter()
             .all(|r| r.fate != Fate::Running || (r.abort_at.is_none() && r.ready_at.is_none())),
@@ -820,7 +977,9 @@ fn eval_single(v0: Option<u32>, hist: &[H]) -> Exp {
 
 #[derive(Clone, Debug)]
 enum MH {
-    Dispatch(u32),
+    /// (input, the future is already resolved to this value)
+    Dispatch(u32, Option<u32>),
+    Eager(bool),
     Suppress(bool),
     Dispose,
     DSync(u32),
@@ -829,30 +988,51 @@ enum MH {
     Polled(usize),
 }
 
+struct T {
+    sub: usize,
+    result: Option<u32>,
+    done: bool,
+}
+
 /// one record per dispatch, each a function of its own dispatch / cancel / completion only
 fn eval_multi(hist: &[MH]) -> (usize, Vec<SubRec>, BTreeSet<&'static str>) {
-    struct T {
-        sub: usize,
-        result: Option<u32>,
-        done: bool,
-    }
     let mut subs: Vec<SubRec> = vec![];
     let mut tasks: Vec<T> = vec![];
     let mut version = 0;
     let mut tags = BTreeSet::new();
-    let (mut suppress, mut disposed) = (false, false);
+    let (mut suppress, mut disposed, mut eager) = (false, false, false);
+    // a poll of task `id` that finds its result finishes the task's own record
+    fn poll(tasks: &mut [T], subs: &mut [SubRec], version: &mut usize, id: usize) {
+        if let Some(t) = tasks.get_mut(id) {
+            if let (false, Some(v)) = (t.done, t.result) {
+                t.done = true;
+                let r = &mut subs[t.sub];
+                *r = (None, if r.3 { None } else { Some(v) }, false, r.3);
+                *version += 1;
+            }
+        }
+    }
     for h in hist {
         match *h {
-            MH::Dispatch(i) => {
+            MH::Dispatch(i, ready) => {
                 if disposed {
                     tags.insert("dispatch-after-dispose");
                 } else if suppress {
                     tags.insert("suppressed-dispatch");
                 } else {
-                    tasks.push(T { sub: subs.len(), result: None, done: false });
+                    tasks.push(T { sub: subs.len(), result: ready, done: false });
                     subs.push((Some(i), None, true, false));
+                    if ready.is_some() {
+                        tags.insert("ready-at-first-poll");
+                    }
+                    if eager {
+                        tags.insert("eager-spawn");
+                        let id = tasks.len() - 1;
+                        poll(&mut tasks, &mut subs, &mut version, id);
+                    }
                 }
             }
+            MH::Eager(b) => eager = b,
             MH::Suppress(b) => suppress = b,
             MH::Dispose => {
                 if !disposed {
@@ -882,16 +1062,7 @@ fn eval_multi(hist: &[MH]) -> (usize, Vec<SubRec>, BTreeSet<&'static str>) {
                     }
                 }
             }
-            MH::Polled(id) => {
-                if let Some(t) = tasks.get_mut(id) {
-                    if let (false, Some(v)) = (t.done, t.result) {
-                        t.done = true;
-                        let r = &mut subs[t.sub];
-                        *r = (None, if r.3 { None } else { Some(v) }, false, r.3);
-                        version += 1;
-                    }
-                }
-            }
+            MH::Polled(id) => poll(&mut tasks, &mut subs, &mut version, id),
         }
     }
     if tasks.iter().filter(|t| !t.done).count() >= 2 {
@@ -902,12 +1073,50 @@ fn eval_multi(hist: &[MH]) -> (usize, Vec<SubRec>, BTreeSet<&'static str>) {
 
 // ------------------------------------------------------------------ one live case
 
+/// what the observers (`ImmediateEffect`s) share with the case: they dispatch from inside a signal
+/// write, i.e. from inside a task poll or inside `clear`, while `Live` is borrowed
+struct Shared {
+    server: bool,
+    slot: SharedSlot,
+    /// index the next spawned task will have
+    next_k: Cell<usize>,
+    suppress: Cell<bool>,
+    disposed: Cell<bool>,
+    /// dispatches made by the observers, not yet entered into the case's tables
+    queue: RefCell<Vec<Nested>>,
+}
+struct Nested {
+    input: u32,
+    /// None: the dispatch was made while suppressed (nothing staged)
+    staged: Option<(oneshot::Sender<u32>, Arc<AtomicBool>)>,
+    handle: ActionAbortHandle,
+}
+impl Shared {
+    /// stage the receiver the next dispatch's future will wait on
+    fn stage(&self) -> (usize, oneshot::Sender<u32>, Arc<AtomicBool>) {
+        let (tx, rx) = oneshot::channel::<u32>();
+        let flag = Arc::new(AtomicBool::new(false));
+        let k = self.next_k.get();
+        self.next_k.set(k + 1);
+        if self.server {
+            staged(|s| s.receivers.insert(k, (rx, flag.clone())));
+        } else {
+            self.slot.lock().unwrap().next = Some((rx, flag.clone()));
+        }
+        (k, tx, flag)
+    }
+}
+
 struct Live {
     kind: Kind,
     v0: Option<u32>,
     started: bool,
     torn: bool,
-    single: Option<Box<dyn SingleAct>>,
+    single: Option<Rc<dyn SingleAct>>,
+    shared: Rc<Shared>,
+    /// the observers installed by `hook` (version, value)
+    effects: [Option<ImmediateEffect>; 2],
+    eager: bool,
     multi: Option<Box<dyn MultiAct>>,
     /// signals obtained under `outer` when the action was created: they survive the disposal of the handle
     retained: Option<Box<dyn Fn() -> Obs>>,
@@ -951,12 +1160,23 @@ impl Live {
         sched::reset();
         suppress_resource_load(false);
         *STAGED.lock().unwrap() = None;
+        VIEW_MISMATCH.store(false, SeqCst);
         Live {
             kind: Kind::Arc,
             v0: None,
             started: false,
             torn: false,
             single: None,
+            shared: Rc::new(Shared {
+                server: false,
+                slot: Default::default(),
+                next_k: Cell::new(0),
+                suppress: Cell::new(false),
+                disposed: Cell::new(false),
+                queue: RefCell::new(vec![]),
+            }),
+            effects: [None, None],
+            eager: false,
             multi: None,
             retained: None,
             mretained: None,
@@ -980,6 +1200,8 @@ impl Live {
         }
     }
     fn drop_action(&mut self) {
+        self.effects = [None, None];
+        self.shared.queue.borrow_mut().clear();
         self.single = None;
         self.multi = None;
         self.retained = None;
@@ -1016,6 +1238,14 @@ impl Live {
         outer.set();
         let inner = outer.with(Owner::new);
         let (kind, v0, slot) = (self.kind, self.v0, self.slot.clone());
+        self.shared = Rc::new(Shared {
+            server: kind.is_server(),
+            slot: slot.clone(),
+            next_k: Cell::new(0),
+            suppress: Cell::new(false),
+            disposed: Cell::new(false),
+            queue: RefCell::new(vec![]),
+        });
         if kind.is_multi() {
             let m = inner.with(|| new_multi(kind, slot));
             self.mretained = Some(outer.with(|| m.retain()));
@@ -1035,7 +1265,7 @@ impl Live {
                 new_single(kind, v0, slot)
             });
             self.retained = Some(outer.with(|| a.retain()));
-            self.single = Some(a);
+            self.single = Some(Rc::from(a));
         }
         self.outer = Some(outer);
         self.inner = Some(inner);
@@ -1050,14 +1280,8 @@ impl Live {
     }
 
     fn stage(&mut self, i: u32) -> usize {
-        let (tx, rx) = oneshot::channel::<u32>();
-        let flag = Arc::new(AtomicBool::new(false));
-        let k = self.senders.len();
-        if self.kind.is_server() {
-            staged(|s| s.receivers.insert(k, (rx, flag.clone())));
-        } else {
-            self.slot.lock().unwrap().next = Some((rx, flag.clone()));
-        }
+        let (k, tx, flag) = self.shared.stage();
+        debug_assert_eq!(k, self.senders.len());
         self.inputs.push(i);
         self.senders.push(Some(tx));
         self.body_done.push(flag);
@@ -1065,10 +1289,34 @@ impl Live {
         self.abort_live.push(false);
         k
     }
-    fn after_dispatch(&mut self, i: u32) {
+    /// enter the dispatches the observers made during the last op into the case's tables
+    fn drain_nested(&mut self) {
+        let nested: Vec<Nested> = std::mem::take(&mut *self.shared.queue.borrow_mut());
+        for n in nested {
+            match n.staged {
+                Some((tx, flag)) => {
+                    self.inputs.push(n.input);
+                    self.senders.push(Some(tx));
+                    self.body_done.push(flag);
+                    self.task_done.push(false);
+                    self.abort_live.push(false);
+                    self.handles.push(Some(n.handle));
+                }
+                None => n.handle.abort(),
+            }
+        }
+        // tasks polled inline by the eager executor
+        for k in 0..self.task_done.len() {
+            if !self.task_done[k] && sched::is_done(k) {
+                self.task_done[k] = true;
+            }
+        }
+    }
+    /// the action function was called for dispatch `k` with its input (and took the staged receiver)
+    fn after_dispatch(&mut self, k: usize, i: u32) {
         if !self.kind.is_server() {
             let s = self.slot.lock().unwrap();
-            if s.next.is_some() || s.seen.last() != Some(&i) {
+            if s.next.is_some() || s.seen.get(k) != Some(&i) {
                 self.fn_input_ok = false;
             }
         }
@@ -1118,6 +1366,38 @@ impl Live {
         }
     }
 
+    /// a synchronous observer (`ImmediateEffect`) of `version()` / `value()` that dispatches `input`
+    /// again each time the signal is written, `budget` times: a retry pattern. It runs INSIDE the
+    /// write, i.e. inside the completion step of a task (or inside `clear`).
+    fn install_hook(&mut self, value: bool, budget: u32, input: u32) {
+        self.effects[value as usize] = None;
+        if budget == 0 {
+            return;
+        }
+        let act = SendWrapper::new(self.single.clone().unwrap());
+        let shared = SendWrapper::new(self.shared.clone());
+        let left = Arc::new(std::sync::atomic::AtomicU32::new(budget));
+        let first = AtomicBool::new(true);
+        let react = move || {
+            // the first run only subscribes
+            if first.swap(false, SeqCst) {
+                return;
+            }
+            // (through a disposed arena handle `dispatch` would panic inside the signal write)
+            if shared.disposed.get() || left.load(SeqCst) == 0 {
+                return;
+            }
+            left.fetch_sub(1, SeqCst);
+            let staged = if shared.suppress.get() { None } else { Some(shared.stage()) };
+            let k = staged.as_ref().map(|s| s.0).unwrap_or(shared.next_k.get());
+            let handle = act.dispatch(false, input, k);
+            shared.queue.borrow_mut().push(Nested { input, staged: staged.map(|(_, tx, flag)| (tx, flag)), handle });
+        };
+        let act2 = self.single.clone().unwrap();
+        let outer = self.outer.clone().unwrap();
+        self.effects[value as usize] = Some(outer.with(|| act2.watch(value, Box::new(react))));
+    }
+
     fn obs(&self) -> String {
         let rl = sched::ready().len();
         let server = self.kind.is_server();
@@ -1141,6 +1421,8 @@ impl Live {
                 "fail fn-input"
             } else if self.retained_mismatch.get() {
                 "fail retained"
+            } else if VIEW_MISMATCH.load(SeqCst) {
+                "fail view"
             } else {
                 "ok"
             };
@@ -1178,6 +1460,8 @@ impl Live {
                 "fail fn-input"
             } else if self.retained_mismatch.get() {
                 "fail retained"
+            } else if VIEW_MISMATCH.load(SeqCst) {
+                "fail view"
             } else {
                 "ok"
             };
@@ -1228,6 +1512,7 @@ impl Live {
                 };
                 suppress_resource_load(b);
                 self.suppress = b;
+                self.shared.suppress.set(b);
                 if self.is_multi() {
                     self.mhist.push(MH::Suppress(b));
                 } else {
@@ -1251,12 +1536,37 @@ impl Live {
                 }
                 if arena {
                     self.disposed = true;
+                    self.shared.disposed.set(true);
                     if self.is_multi() {
                         self.mhist.push(MH::Dispose);
                     } else {
                         self.hist.push(H::Dispose);
                     }
                 }
+            }
+            ["eager", b] => {
+                let b = match *b {
+                    "0" => false,
+                    "1" => true,
+                    _ => return bad(),
+                };
+                sched::set_eager(b);
+                self.eager = b;
+                if self.is_multi() {
+                    self.mhist.push(MH::Eager(b));
+                } else {
+                    self.hist.push(H::Eager(b));
+                }
+            }
+            ["hook", tr, b, i] if !self.is_multi() => {
+                let value = match *tr {
+                    "version" => false,
+                    "value" => true,
+                    _ => return bad(),
+                };
+                let (Some(budget), Some(input)) = (num(b), num(i)) else { return bad() };
+                self.install_hook(value, budget, input);
+                self.hist.push(H::Hook(value, budget, input));
             }
             ["obs"] => {}
             ["idle"] => self.run_idle(),
@@ -1274,17 +1584,27 @@ impl Live {
                 }
             }
             _ if self.is_multi() => match w.as_slice() {
-                ["dispatch", i] => {
+                ["dispatch", i] | ["dispatchr", i, _] => {
                     let Some(i) = num(i) else { return bad() };
+                    let ready = if w.len() == 3 {
+                        let Some(v) = num(w[2]) else { return bad() };
+                        Some(v)
+                    } else {
+                        None
+                    };
                     // what the harness expects from its own ops; if the real code spawns anyway,
                     // its action function finds nothing staged
                     let expect_spawn = !self.suppress && !self.disposed;
                     let k = if expect_spawn { self.stage(i) } else { self.senders.len() };
+                    if let (true, Some(v)) = (expect_spawn, ready) {
+                        // the future is resolved before it is ever polled
+                        let _ = self.senders[k].take().unwrap().send(v);
+                    }
                     self.multi.as_ref().unwrap().dispatch(i, k);
                     if expect_spawn {
-                        self.after_dispatch(i);
+                        self.after_dispatch(k, i);
                     }
-                    self.mhist.push(MH::Dispatch(i));
+                    self.mhist.push(MH::Dispatch(i, ready));
                 }
                 ["dsync", v] => {
                     let Some(v) = num(v) else { return bad() };
@@ -1303,12 +1623,22 @@ impl Live {
                 }
                 _ => return bad(),
             },
-            ["dispatch", i] | ["dispatchl", i] => {
+            ["dispatch", i] | ["dispatchl", i] | ["dispatchr", i, _] => {
                 let Some(i) = num(i) else { return bad() };
+                let ready = if w.len() == 3 {
+                    let Some(v) = num(w[2]) else { return bad() };
+                    Some(v)
+                } else {
+                    None
+                };
                 let local = w[0] == "dispatchl" || self.kind.default_local();
                 let expect_spawn = !self.suppress && !self.disposed;
                 let k = if expect_spawn { self.stage(i) } else { self.senders.len() };
-                let act = self.single.as_ref().unwrap();
+                if let (true, Some(v)) = (expect_spawn, ready) {
+                    // the future is resolved before it is ever polled
+                    let _ = self.senders[k].take().unwrap().send(v);
+                }
+                let act = self.single.clone().unwrap();
                 // odd dispatches are made with the action's own (inner) owner current, even ones under the
                 // outer owner (the owner current at dispatch is the one the action's future runs under)
                 let under = if k % 2 == 1 { self.inner.clone() } else { None };
@@ -1320,7 +1650,7 @@ impl Live {
                     Ok(h) => {
                         if expect_spawn {
                             self.handles.push(Some(h));
-                            self.after_dispatch(i);
+                            self.after_dispatch(k, i);
                         } else {
                             // the handle of a dispatch that did nothing is inert
                             h.abort();
@@ -1330,7 +1660,7 @@ impl Live {
                     Err(_) if self.disposed => prefix = "panic-disposed ",
                     Err(_) => return "panic ## fail panic".into(),
                 }
-                self.hist.push(H::Dispatch(i, local));
+                self.hist.push(H::Dispatch(i, local, ready));
             }
             ["abort", k] => {
                 let Some(k) = idx(k) else { return bad() };
@@ -1356,6 +1686,7 @@ impl Live {
             _ => return bad(),
         }
         self.started = true;
+        self.drain_nested();
         format!("{prefix}{}", self.obs())
     }
 
@@ -1638,12 +1969,22 @@ fn kind_line(kind: &str, rot: usize) -> String {
 /// Rotates over every single-action kind (plain and leptos_server wrappers), `dispatch`/`dispatch_local`,
 /// Ok/Err results for the server kinds.
 fn gen_exhaustive_single(g: &mut Gen, nd: usize, scripts: &[&str], modes: &[char], extras: &[&str]) {
+    gen_exhaustive_single_pre(g, nd, scripts, modes, extras, &[])
+}
+
+/// `pre`: op lines put right after the `kind` line (e.g. `eager 1`); a script starting with `!` makes
+/// its dispatch a `dispatchr` (the future is resolved before it is first polled)
+fn gen_exhaustive_single_pre(g: &mut Gen, nd: usize, scripts: &[&str], modes: &[char], extras: &[&str], pre: &[&str]) {
     let kinds = all_single_kinds();
     let mut rot = 0usize;
-    let tag: String = extras.iter().map(|e| e.chars().next().unwrap()).collect();
+    let tag: String = extras.iter().map(|e| e.chars().next().unwrap()).chain(pre.iter().map(|p| p.chars().next().unwrap())).collect();
     for assign in product(nd, scripts.len()) {
         let mut seqs: Vec<Vec<(usize, char)>> = (0..nd)
-            .map(|k| std::iter::once((k, 'D')).chain(scripts[assign[k]].chars().map(|c| (k, c))).collect())
+            .map(|k| {
+                std::iter::once((k, 'D'))
+                    .chain(scripts[assign[k]].chars().filter(|c| *c != '!').map(|c| (k, c)))
+                    .collect()
+            })
             .collect();
         for e in extras {
             seqs.push(e.chars().map(|c| (0, c)).collect());
@@ -1657,6 +1998,7 @@ fn gen_exhaustive_single(g: &mut Gen, nd: usize, scripts: &[&str], modes: &[char
                 let server = kind.starts_with("server-");
                 rot += 1;
                 let mut l = vec![kind_line(kind, rot)];
+                l.extend(pre.iter().map(|p| p.to_string()));
                 let (mut suppress, mut disposed) = (false, false);
                 let mut task_of: Vec<Option<usize>> = vec![None; nd];
                 let mut ntasks = 0;
@@ -1667,7 +2009,11 @@ fn gen_exhaustive_single(g: &mut Gen, nd: usize, scripts: &[&str], modes: &[char
                                 task_of[k] = Some(ntasks);
                                 ntasks += 1;
                             }
-                            format!("{} {}", if (rot + n) % 3 == 0 { "dispatchl" } else { "dispatch" }, 10 + k)
+                            if scripts[assign[k]].starts_with('!') {
+                                format!("dispatchr {} {}", 10 + k, if server && (rot + k) % 3 == 0 { 1100 + k } else { 100 + k })
+                            } else {
+                                format!("{} {}", if (rot + n) % 3 == 0 { "dispatchl" } else { "dispatch" }, 10 + k)
+                            }
                         }
                         'K' => "clear".into(),
                         'Z' => {
@@ -1720,12 +2066,141 @@ fn gen_exhaustive_single(g: &mut Gen, nd: usize, scripts: &[&str], modes: &[char
     }
 }
 
+/// re-entrant dispatch, exhaustively for small scope: observers of `version` / `value` with budgets
+/// `hv` / `hl` installed first, then every assignment of scripts and every interleaving, every event
+/// processed at once (mode E: the generator can follow which tasks the observers add), finally the
+/// tasks the observers added are resolved too (which lets the observers fire again)
+fn gen_exhaustive_hooks(g: &mut Gen, nd: usize, scripts: &[&str], extras: &[&str], hv: u32, hl: u32, eager: bool) {
+    let kinds = all_single_kinds();
+    let mut rot = 0usize;
+    for assign in product(nd, scripts.len()) {
+        let mut seqs: Vec<Vec<(usize, char)>> = (0..nd)
+            .map(|k| {
+                std::iter::once((k, 'D'))
+                    .chain(scripts[assign[k]].chars().filter(|c| *c != '!').map(|c| (k, c)))
+                    .collect()
+            })
+            .collect();
+        for e in extras {
+            seqs.push(e.chars().map(|c| (0, c)).collect());
+        }
+        let mut all = vec![];
+        interleavings(&seqs, &mut vec![0; seqs.len()], &mut vec![], &mut all);
+        for evs in all {
+            let kind = kinds[rot % kinds.len()];
+            let arena = kind.contains("arena");
+            rot += 1;
+            let mut l = vec![kind_line(kind, rot)];
+            if eager {
+                l.push("eager 1".into());
+            }
+            if hv > 0 {
+                l.push(format!("hook version {hv} 90"));
+            }
+            if hl > 0 {
+                l.push(format!("hook value {hl} 91"));
+            }
+            // the generator's own account of the case (mode E: nothing is ever left woken)
+            let (mut suppress, mut disposed) = (false, false);
+            let mut budget = [hv, hl];
+            let mut running: Vec<bool> = vec![]; // per task
+            let mut used: Vec<bool> = vec![]; // abort handle used
+            let mut task_of: Vec<Option<usize>> = vec![None; nd];
+            fn notify(which: usize, budget: &mut [u32; 2], disposed: bool, suppress: bool, running: &mut Vec<bool>, used: &mut Vec<bool>) {
+                if !disposed && budget[which] > 0 {
+                    budget[which] -= 1;
+                    if !suppress {
+                        running.push(true);
+                        used.push(false);
+                    }
+                }
+            }
+            for &(k, c) in &evs {
+                match c {
+                    'D' => {
+                        let ready = scripts[assign[k]].starts_with('!');
+                        l.push(if ready { format!("dispatchr {} {}", 10 + k, 100 + k) } else { format!("dispatch {}", 10 + k) });
+                        if !suppress && !disposed {
+                            task_of[k] = Some(running.len());
+                            running.push(!ready);
+                            used.push(false);
+                            if ready {
+                                // completes at its first poll (inside dispatch if eager, at the idle below otherwise)
+                                notify(0, &mut budget, disposed, suppress, &mut running, &mut used);
+                                notify(1, &mut budget, disposed, suppress, &mut running, &mut used);
+                            }
+                        }
+                    }
+                    'K' => {
+                        l.push("clear".into());
+                        if !disposed {
+                            notify(1, &mut budget, disposed, suppress, &mut running, &mut used);
+                        }
+                    }
+                    'Z' => {
+                        l.push(if arena && rot % 2 == 0 { "dispose".into() } else { "cleanup".into() });
+                        if arena {
+                            disposed = true;
+                        }
+                    }
+                    's' => {
+                        suppress = true;
+                        l.push("suppress 1".into());
+                    }
+                    'u' => {
+                        suppress = false;
+                        l.push("suppress 0".into());
+                    }
+                    _ => {
+                        let Some(t) = task_of[k] else { continue };
+                        match c {
+                            'R' => {
+                                l.push(format!("ready {t} {}", 100 + k));
+                                if running[t] {
+                                    running[t] = false;
+                                    notify(0, &mut budget, disposed, suppress, &mut running, &mut used);
+                                    notify(1, &mut budget, disposed, suppress, &mut running, &mut used);
+                                }
+                            }
+                            'A' => {
+                                l.push(format!("abort {t}"));
+                                if !used[t] {
+                                    used[t] = true;
+                                    running[t] = false;
+                                }
+                            }
+                            _ => unreachable!(),
+                        }
+                    }
+                }
+                l.push("idle".into());
+            }
+            // resolve what the observers dispatched (they may fire again)
+            for _ in 0..3 {
+                let open: Vec<usize> = (0..running.len()).filter(|&t| running[t] && t >= nd).collect();
+                for t in open {
+                    l.push(format!("ready {t} {}", 200 + t));
+                    l.push("idle".into());
+                    running[t] = false;
+                    notify(0, &mut budget, disposed, suppress, &mut running, &mut used);
+                    notify(1, &mut budget, disposed, suppress, &mut running, &mut used);
+                }
+            }
+            g.case(&format!("h{nd}{}{hv}{hl}-", if eager { "e" } else { "d" }), &l);
+        }
+    }
+}
+
 fn gen_exhaustive_multi(g: &mut Gen, nd: usize, extras: &[&str]) {
+    gen_exhaustive_multi_pre(g, nd, extras, &MSCRIPTS, &[])
+}
+
+fn gen_exhaustive_multi_pre(g: &mut Gen, nd: usize, extras: &[&str], mscripts: &[&str], pre: &[&str]) {
     let mut rot = 0usize;
     let tag: String = extras.iter().map(|e| e.chars().next().unwrap()).collect();
-    for assign in product(nd, MSCRIPTS.len()) {
+    for assign in product(nd, mscripts.len()) {
         let mut seqs: Vec<Vec<(usize, char)>> = (0..nd)
-            .map(|k| std::iter::once((k, 'D')).chain(MSCRIPTS[assign[k]].chars().map(|c| (k, c))).collect())
+            .map(|k| std::iter::once((k, 'D')).chain(mscripts[assign[k]].chars().filter(|c| *c != '!').map(|c| (k, c))).collect())
             .collect();
         for e in extras {
             seqs.push(e.chars().map(|c| (0, c)).collect());
@@ -1739,6 +2214,7 @@ fn gen_exhaustive_multi(g: &mut Gen, nd: usize, extras: &[&str]) {
                 let server = kind.starts_with("server-");
                 rot += 1;
                 let mut l = vec![format!("kind {kind}")];
+                l.extend(pre.iter().map(|p| p.to_string()));
                 let (mut suppress, mut disposed) = (false, false);
                 let mut task_of: Vec<Option<(usize, usize)>> = vec![None; nd]; // (task, submission)
                 let (mut ntasks, mut nsubs) = (0, 0);
@@ -1750,7 +2226,11 @@ fn gen_exhaustive_multi(g: &mut Gen, nd: usize, extras: &[&str]) {
                                 ntasks += 1;
                                 nsubs += 1;
                             }
-                            format!("dispatch {}", 10 + k)
+                            if mscripts[assign[k]].starts_with('!') {
+                                format!("dispatchr {} {}", 10 + k, 100 + k)
+                            } else {
+                                format!("dispatch {}", 10 + k)
+                            }
                         }
                         'S' => {
                             if !disposed {
@@ -1787,7 +2267,7 @@ fn gen_exhaustive_multi(g: &mut Gen, nd: usize, extras: &[&str]) {
                     }
                 }
                 l.push("idle".into());
-                g.case(&format!("m{nd}{mode}{tag}-"), &l);
+                g.case(&format!("m{nd}{mode}{tag}{}-", if pre.is_empty() { "" } else { "e" }), &l);
             }
         }
     }
@@ -1807,9 +2287,21 @@ fn gen_random_single(g: &mut Gen, rng: &mut Rng) {
     }
     let mut sim = Sim { arena: kind.contains("arena"), ..Default::default() };
     let result = |rng: &mut Rng| if server && rng.chance(1, 3) { rng.range(1000, 1099) } else { rng.range(100, 199) };
-    let dispatch = |rng: &mut Rng| format!("{} {}", if rng.chance(1, 3) { "dispatchl" } else { "dispatch" }, rng.range(1, 99));
+    let dispatch = |rng: &mut Rng| {
+        if rng.chance(1, 6) {
+            format!("dispatchr {} {}", rng.range(1, 99), rng.range(100, 199))
+        } else {
+            format!("{} {}", if rng.chance(1, 3) { "dispatchl" } else { "dispatch" }, rng.range(1, 99))
+        }
+    };
     // one case in four plays with suppression / disposal
     let special = rng.chance(1, 4);
+    if rng.chance(1, 4) {
+        l.push("eager 1".into());
+    }
+    if rng.chance(1, 5) {
+        l.push(format!("hook {} {} {}", if rng.chance(1, 2) { "version" } else { "value" }, rng.range(1, 2), rng.range(80, 89)));
+    }
     let max_total = rng.range(1, 8);
     let max_overlap = *rng.pick(&[1, 2, 3, 4, 4, 4]);
     let len = rng.range(4, 40);
@@ -1909,6 +2401,9 @@ fn gen_random_multi(g: &mut Gen, rng: &mut Rng) {
     let mut sim = Sim { arena: kind.contains("arena"), ..Default::default() };
     let mut nsubs = 0usize;
     let special = rng.chance(1, 4);
+    if rng.chance(1, 4) {
+        l.push("eager 1".into());
+    }
     let len = rng.range(3, 30);
     for _ in 0..len {
         match rng.below(16) {
@@ -1980,6 +2475,34 @@ fn generate(seed: u64, n: usize, path: &str, tier: &str) -> std::io::Result<()> 
     }
     gen_exhaustive_single(&mut g, 3, &SCRIPTS[..3], &['E', 'F'], &["Z"]);
     gen_exhaustive_single(&mut g, 3, &SCRIPTS[..2], &['E'], &["su"]);
+    // eager executor (spawn polls inline) and futures resolved before their first poll
+    const RS: [&str; 5] = ["!", "!A", "R", "A", "AR"];
+    for nd in 1..=2 {
+        gen_exhaustive_single_pre(&mut g, nd, &RS, &['E', 'L', 'F'], &[], &["eager 1"]);
+        gen_exhaustive_single_pre(&mut g, nd, &RS, &['E', 'L'], &[], &[]);
+        gen_exhaustive_single_pre(&mut g, nd, &RS[..3], &['E', 'L'], &["Z"], &["eager 1"]);
+        gen_exhaustive_single_pre(&mut g, nd, &RS[..3], &['E'], &["su"], &["eager 1"]);
+    }
+    gen_exhaustive_single_pre(&mut g, 3, &RS[..4], &['E', 'F'], &[], &["eager 1"]);
+    // re-entrant dispatch from synchronous observers of version / value
+    for (hv, hl) in [(1, 0), (0, 1), (2, 0), (1, 1), (0, 2)] {
+        for eager in [false, true] {
+            gen_exhaustive_hooks(&mut g, 1, &RS, &[], hv, hl, eager);
+            gen_exhaustive_hooks(&mut g, 2, &RS[..4], &[], hv, hl, eager);
+            gen_exhaustive_hooks(&mut g, 1, &RS[..4], &["K"], hv, hl, eager);
+            gen_exhaustive_hooks(&mut g, 1, &RS[..4], &["Z"], hv, hl, eager);
+            gen_exhaustive_hooks(&mut g, 1, &RS[..4], &["su"], hv, hl, eager);
+        }
+    }
+    gen_exhaustive_hooks(&mut g, 2, &RS[..4], &["K"], 1, 1, false);
+    gen_exhaustive_hooks(&mut g, 2, &RS[..3], &["Z"], 1, 1, true);
+    gen_exhaustive_hooks(&mut g, 3, &RS[2..4], &[], 2, 0, false);
+    const MRS: [&str; 4] = ["!", "!C", "R", "CR"];
+    for nd in 1..=2 {
+        gen_exhaustive_multi_pre(&mut g, nd, &[], &MRS, &["eager 1"]);
+        gen_exhaustive_multi_pre(&mut g, nd, &[], &MRS, &[]);
+        gen_exhaustive_multi_pre(&mut g, nd, &["Z"], &MRS[..3], &["eager 1"]);
+    }
     if thorough {
         gen_exhaustive_single(&mut g, 4, &SCRIPTS[..3], &['E', 'F'], &[]);
         gen_exhaustive_single(&mut g, 3, &SCRIPTS[..3], &['E', 'F'], &["K"]);
